@@ -196,7 +196,7 @@ def obs_C03(g, out):
     eq = g.eq
     h = 1e-5
     fpol0, pres0 = analytic_profiles(g.cfg)
-    psign = g.cfg.get("psi_sign", 1.0)
+    psign = g.cfg.get("psi_sign", 1.0) * g.cfg.get("psi_scale", 1.0)      # file psi / psign = psi of the unsigned, unscaled family
     fpol = pres = None
     if g.cfg.get("family", "tokamak") == "tokamak":
         # the input profiles are given on the psi range of the psi1D array only; outside it the
@@ -316,7 +316,7 @@ def cell_arcs(g):
         psi1d = E.tokamak_arrays(g.cfg["geometry"], g.cfg.get("nR", 65), g.cfg.get("nZ", 65), mirror=g.cfg.get("mirror", False),
                                  psi1d_rmax=g.cfg.get("psi1d_rmax"))[3]
         lo, hi = float(np.min(psi1d)), float(np.max(psi1d))
-        psign = g.cfg.get("psi_sign", 1.0)
+        psign = g.cfg.get("psi_sign", 1.0) * g.cfg.get("psi_scale", 1.0)
 
         def integrand(R, Z):
             if fpol0 is None:
